@@ -418,10 +418,8 @@ Fixpoint collect_range (l : list vcell) (i : N) (n : nat) : M (list vcell) :=
            | None => panic P_UNWRAP_NONE
            end
   end.
-Definition vector_mut_copy : M vcell :=
-  dom argc <- pop_argc 3 (Some 5);
-  dom end_ <- (if argc =? 5 then dom e <- pop_index; ret (Some e) else ret None);
-  dom start <- (if 4 <=? argc then dom s <- pop_index; ret (Some s) else ret None);
+(* the part after the optional indices have been popped *)
+Definition vmc_after (start end_ : option N) : M vcell :=
   dom from <- pop_vector;
   dom at_ <- pop_index;
   dom to <- pop_vector;
@@ -446,6 +444,11 @@ Definition vector_mut_copy : M vcell :=
       dom tl' <- vec_get to;
       dom _ <- vec_set to (put_all tl' at_ vals);
       ret VVoid.
+Definition vector_mut_copy : M vcell :=
+  dom argc <- pop_argc 3 (Some 5);
+  dom end_ <- (if argc =? 5 then dom e <- pop_index; ret (Some e) else ret None);
+  dom start <- (if 4 <=? argc then dom s <- pop_index; ret (Some s) else ret None);
+  vmc_after start end_.
 
 (* ================================================================ compare.rs *)
 Definition text_eqb' (a b : text) : bool := text_eqb a b.
